@@ -476,6 +476,7 @@ type fixture struct {
 	manifests map[string][]byte
 	archive   []byte
 	addr      string
+	downloads int
 }
 
 func newFixture() (*fixture, error) {
@@ -507,7 +508,21 @@ func newFixture() (*fixture, error) {
 		}
 		w.Write(data)
 	})
-	mux.HandleFunc("/dl/", func(w http.ResponseWriter, r *http.Request) { w.Write(f.archive) })
+	mux.HandleFunc("/dl/", func(w http.ResponseWriter, r *http.Request) {
+		f.mu.Lock()
+		f.downloads++
+		n := f.downloads
+		f.mu.Unlock()
+		var buf bytes.Buffer
+		gz := gzip.NewWriter(&buf)
+		tw := tar.NewWriter(gz)
+		body := []byte(stubScript + fmt.Sprintf("# download %d\n", n))
+		tw.WriteHeader(&tar.Header{Name: "octosql-plugin-stub", Mode: 0o755, Size: int64(len(body)), Typeflag: tar.TypeReg})
+		tw.Write(body)
+		tw.Close()
+		gz.Close()
+		w.Write(buf.Bytes())
+	})
 	go http.Serve(ln, mux)
 	return f, nil
 }
@@ -582,7 +597,7 @@ func run(f lib.Flags, scratch string) error {
 	if f.Tier == "thorough" {
 		scale = 10
 	}
-	nParse, nCmp, nCheck, nList, nPick, nResolve := 150*scale, 250*scale, 450*scale, 160*scale, 90*scale, 36*scale
+	nParse, nCmp, nCheck, nList, nPick, nResolve := 150*scale, 250*scale, 450*scale, 160*scale, 90*scale, 48*scale
 	if f.N > 0 {
 		nParse, nCmp, nCheck, nList, nPick, nResolve = f.N, f.N, f.N, f.N, f.N, f.N
 	}
@@ -771,16 +786,15 @@ func run(f lib.Flags, scratch string) error {
 		}
 	}
 
-	// ---- Install's pick
+	// ---- Install's pick.  Three deterministic families (i mod 3): one repository / one Install; two or three
+	// repositories offering a plugin of the SAME name with different manifests, installing from each position
+	// (first, middle, last); sequences install -> the manifest gains higher versions -> install again.
+	// Which version directory an Install wrote is recognised by the download it contains (every download is numbered).
 	fx, err := newFixture()
 	if err != nil {
 		return err
 	}
-	for i := 0; i < nPick; i++ {
-		r := rng.Fork()
-		base := genVer(r, false)
-		base.maj = int64(r.Intn(3))
-		n := r.Intn(6)
+	genManifest := func(r *lib.Rng, base ver, n int) []ver {
 		seen := map[string]bool{}
 		var manifest []ver
 		for len(manifest) < n {
@@ -796,11 +810,9 @@ func run(f lib.Flags, scratch string) error {
 				manifest = append(manifest, v)
 			}
 		}
-		var cs constraints
-		withC := r.Chance(2, 3)
-		if withC {
-			cs = genConstraints(r, base)
-		}
+		return manifest
+	}
+	publish := func(key string, manifest []ver) {
 		type mv struct {
 			Number string `json:"number"`
 		}
@@ -808,35 +820,20 @@ func run(f lib.Flags, scratch string) error {
 			Pattern  string `json:"binary_download_url_pattern"`
 			Versions []mv   `json:"versions"`
 		}{Pattern: fx.addr + "/dl/{{os}}/{{arch}}/{{version}}.tar.gz", Versions: []mv{}}
-		var mobs, mtxt []string
 		for _, v := range manifest {
 			doc.Versions = append(doc.Versions, mv{Number: v.String()})
-			mobs = append(mobs, obsOf(semver.MustParse(v.String())))
-			mtxt = append(mtxt, v.String())
 		}
 		data, _ := json.Marshal(doc)
-		key := fmt.Sprintf("m%d", i)
 		fx.mu.Lock()
 		fx.manifests[key] = data
 		fx.mu.Unlock()
-		name := namePool[r.Intn(len(namePool))]
-		root := filepath.Join(scratch, fmt.Sprintf("pick-%d", i))
+	}
+	// one Install and its case
+	installStep := func(ipm *manager.PluginManager, root, slug, name, arg string, cons *semver.Constraints, manifest []ver, cs constraints, withC bool, how, family string) error {
+		fx.mu.Lock()
+		before := fx.downloads
+		fx.mu.Unlock()
 		os.Setenv("OCTOSQL_PLUGIN_DIR", root)
-		ipm := &manager.PluginManager{Repositories: []repository.Repository{{Slug: "core", Plugins: []repository.Plugin{{Name: name, ManifestURL: fx.addr + "/manifest/" + key}}}}}
-		arg := name
-		var cons *semver.Constraints
-		how := "none"
-		if withC {
-			if r.Bool() {
-				arg = name + "@" + cs.text()
-				how = "inline"
-			} else {
-				how = "argument"
-				if cons, err = semver.NewConstraint(cs.text()); err != nil {
-					return err
-				}
-			}
-		}
 		stdout := os.Stdout
 		devnull, _ := os.OpenFile(os.DevNull, os.O_WRONLY, 0)
 		os.Stdout = devnull
@@ -852,35 +849,179 @@ func run(f lib.Flags, scratch string) error {
 		os.Stdout = stdout
 		devnull.Close()
 		os.Unsetenv("OCTOSQL_PLUGIN_DIR")
-		entries, _ := os.ReadDir(filepath.Join(root, "core", installedDir(name)))
+		fx.mu.Lock()
+		after := fx.downloads
+		fx.mu.Unlock()
+		var mobs, mtxt []string
+		for _, v := range manifest {
+			mobs = append(mobs, obsOf(semver.MustParse(v.String())))
+			mtxt = append(mtxt, v.String())
+		}
 		obs := "None"
-		js := map[string]interface{}{"kind": "pick", "manifest": mtxt, "constraint": nil, "how": how}
+		js := map[string]interface{}{"kind": "pick", "family": family, "install": arg, "manifest": mtxt, "constraint": nil, "how": how}
 		if withC {
 			js["constraint"] = cs.text()
 		}
-		idx := -1
+		bad := ""
+		// where did this Install's download end up?
+		var written []string
+		if after > before {
+			tag := fmt.Sprintf("# download %d\n", after)
+			repos, _ := os.ReadDir(root)
+			for _, rd := range repos {
+				plugs, _ := os.ReadDir(filepath.Join(root, rd.Name()))
+				for _, pd := range plugs {
+					vers, _ := os.ReadDir(filepath.Join(root, rd.Name(), pd.Name()))
+					for _, vd := range vers {
+						data, _ := os.ReadFile(filepath.Join(root, rd.Name(), pd.Name(), vd.Name(), "octosql-plugin-stub"))
+						if strings.Contains(string(data), tag) {
+							written = append(written, rd.Name()+"/"+pd.Name()+"/"+vd.Name())
+						}
+					}
+				}
+			}
+		}
 		switch {
-		case ierr != nil && ierr.Error() == "version not found" && len(entries) == 0:
+		case ierr != nil && ierr.Error() == "version not found" && after == before:
 			js["picked"] = nil
 			cf.Count("pick_none")
-		case ierr == nil && len(entries) == 1:
-			pv, perr := semver.NewVersion(entries[0].Name())
+		case ierr == nil && after == before+1 && len(written) == 1:
+			parts := strings.Split(written[0], "/")
+			pv, perr := semver.NewVersion(parts[2])
 			if perr != nil {
-				return fmt.Errorf("Install created a version directory that is not a version: %q", entries[0].Name())
+				return fmt.Errorf("Install created a version directory that is not a version: %q", written[0])
 			}
 			obs = fmt.Sprintf("(Some %s)", obsOf(pv))
-			js["picked"] = entries[0].Name()
+			js["picked"] = written[0]
 			cf.Count("pick_some")
+			if parts[0] != slug || parts[1] != installedDir(name) {
+				bad = fmt.Sprintf("Install of %s wrote %s, not below %s/%s", arg, written[0], slug, installedDir(name))
+			}
+		case ierr == nil && after == before:
+			js["picked"] = nil
+			js["note"] = "Install returned without downloading anything"
+			cf.Count("pick_nothing_downloaded")
 		default:
 			js["error"] = fmt.Sprint(ierr)
+			bad = fmt.Sprintf("Install failed unexpectedly: %v (downloads: %d, directories written: %v)", ierr, after-before, written)
 		}
 		cobs := "None"
 		if withC {
 			cobs = "(Some " + cs.coq() + ")"
 		}
-		idx = cf.Add(fmt.Sprintf("KPick %s %s %s", lib.CoqList(mobs), cobs, obs), js, len(manifest) >= 2)
-		if _, bad := js["error"]; bad {
-			cf.Violation(idx, fmt.Sprintf("Install failed unexpectedly: %v (directories created: %d)", ierr, len(entries)), "")
+		idx := cf.Add(fmt.Sprintf("KPick %s %s %s", lib.CoqList(mobs), cobs, obs), js, len(manifest) >= 2)
+		cf.Count("pick_family_" + family)
+		if bad != "" {
+			cf.Violation(idx, bad, "")
+		}
+		return nil
+	}
+	for i := 0; i < nPick; i++ {
+		r := rng.Fork()
+		base := genVer(r, false)
+		base.maj = int64(r.Intn(3))
+		var cs constraints
+		withC := r.Chance(2, 3)
+		if withC {
+			cs = genConstraints(r, base)
+		}
+		name := namePool[r.Intn(len(namePool))]
+		root := filepath.Join(scratch, fmt.Sprintf("pick-%d", i))
+		mkArgs := func(slug string) (string, *semver.Constraints, string, error) {
+			arg := name
+			if slug != "core" || r.Bool() {
+				arg = slug + "/" + name
+			}
+			var cons *semver.Constraints
+			how := "none"
+			if withC {
+				if r.Bool() {
+					arg += "@" + cs.text()
+					how = "inline"
+				} else {
+					how = "argument"
+					var err error
+					if cons, err = semver.NewConstraint(cs.text()); err != nil {
+						return "", nil, "", err
+					}
+				}
+			}
+			return arg, cons, how, nil
+		}
+		switch i % 3 {
+		case 0: // one repository, one Install
+			manifest := genManifest(r, base, r.Intn(6))
+			key := fmt.Sprintf("m%d", i)
+			publish(key, manifest)
+			ipm := &manager.PluginManager{Repositories: []repository.Repository{{Slug: "core", Plugins: []repository.Plugin{{Name: name, ManifestURL: fx.addr + "/manifest/" + key}}}}}
+			arg, cons, how, err := mkArgs("core")
+			if err != nil {
+				return err
+			}
+			if err := installStep(ipm, root, "core", name, arg, cons, manifest, cs, withC, how, "single"); err != nil {
+				return err
+			}
+		case 1: // several repositories offer a plugin of this name; install from the first, a middle or the last one
+			slugs := []string{"core", "extra", "third"}[:2+r.Intn(2)]
+			var repos []repository.Repository
+			manifests := make([][]ver, len(slugs))
+			for k, slug := range slugs {
+				b := base
+				b.maj = base.maj + int64(3*k) // different release lines per repository
+				manifests[k] = genManifest(r, b, 1+r.Intn(4))
+				key := fmt.Sprintf("m%d-%s", i, slug)
+				publish(key, manifests[k])
+				repos = append(repos, repository.Repository{Slug: slug, Plugins: []repository.Plugin{
+					{Name: "unrelated", ManifestURL: fx.addr + "/manifest/none"}, {Name: name, ManifestURL: fx.addr + "/manifest/" + key}}})
+			}
+			target := (i / 3) % len(slugs)
+			if withC { // a constraint around the target repository's release line
+				b := base
+				b.maj = base.maj + int64(3*target)
+				cs = genConstraints(r, b)
+			}
+			ipm := &manager.PluginManager{Repositories: repos}
+			arg, cons, how, err := mkArgs(slugs[target])
+			if err != nil {
+				return err
+			}
+			if err := installStep(ipm, root, slugs[target], name, arg, cons, manifests[target], cs, withC, how, fmt.Sprintf("repository_%d_of_%d", target+1, len(slugs))); err != nil {
+				return err
+			}
+		default: // install, the manifest gains higher versions (a release and a prerelease on top), install again
+			m1 := genManifest(r, base, 1+r.Intn(3))
+			top := base
+			for _, v := range m1 {
+				if v.maj > top.maj || (v.maj == top.maj && v.min > top.min) {
+					top = v
+				}
+			}
+			m2 := append([]ver(nil), m1...)
+			m2 = append(m2, ver{maj: top.maj, min: top.min + 1 + int64(r.Intn(2)), pat: int64(r.Intn(3))})
+			if r.Bool() {
+				m2 = append(m2, ver{maj: top.maj + 1, min: 0, pat: 0})
+			}
+			m2 = append(m2, ver{maj: top.maj + 2, min: 0, pat: 0, pre: []string{"rc", "1"}})
+			if withC && r.Bool() { // a constraint that the old and the new versions of the release line satisfy
+				cs = constraints{{cspec{opTxt: "^", maj: seg{n: top.maj}, min: &seg{n: 0}, pat: &seg{n: 0}}}}
+				if top.maj == 0 {
+					cs = constraints{{cspec{opTxt: ">=", maj: seg{n: 0}, min: &seg{n: 0}, pat: &seg{n: 0}}}}
+				}
+			}
+			key := fmt.Sprintf("m%d", i)
+			ipm := &manager.PluginManager{Repositories: []repository.Repository{{Slug: "core", Plugins: []repository.Plugin{{Name: name, ManifestURL: fx.addr + "/manifest/" + key}}}}}
+			arg, cons, how, err := mkArgs("core")
+			if err != nil {
+				return err
+			}
+			publish(key, m1)
+			if err := installStep(ipm, root, "core", name, arg, cons, m1, cs, withC, how, "sequence_first"); err != nil {
+				return err
+			}
+			publish(key, m2)
+			if err := installStep(ipm, root, "core", name, arg, cons, m2, cs, withC, how, "sequence_after_manifest_grew"); err != nil {
+				return err
+			}
 		}
 		os.RemoveAll(root)
 	}
@@ -922,8 +1063,18 @@ func run(f lib.Flags, scratch string) error {
 		for i := 0; i < nCfg; i++ {
 			r := rng.Fork()
 			t := genInstalledTree(r, false)
-			c := &rcfg{sameType: i%2 == 0}
+			c := &rcfg{sameType: i%3 == 0}
+			preTop := i%3 == 1 // a database WITHOUT `version:` over a version set whose highest version is a prerelease
 			var famRef [2]string
+			if preTop {
+				rp := r.Intn(len(t))
+				pi := r.Intn(len(t[rp].plugs))
+				t[rp].plugs[pi].versions = append([]string(nil), [][]string{
+					{"1.4.0", "2.0.0-beta.1"}, {"0.9.0", "1.0.0-rc.1", "1.0.0-rc.2"}, {"1.0.0-alpha"}, {"1.2.0", "1.3.0-0", "1.2.1+b5"},
+					{"2.0.0-rc.1", "2.0.0-rc.1.1", "1.9.9"}}[r.Intn(5)]...)
+				famRef = [2]string{t[rp].name, t[rp].plugs[pi].name}
+				cf.Count("resolve_versionless_over_prerelease_top_configurations")
+			}
 			if c.sameType {
 				rp, pi := r.Intn(len(t)), 0
 				pi = r.Intn(len(t[rp].plugs))
@@ -949,7 +1100,7 @@ func run(f lib.Flags, scratch string) error {
 			yml := "databases:\n"
 			for d := 0; d < nDB; d++ {
 				ref := all[r.Intn(len(all))]
-				if c.sameType {
+				if c.sameType || (preTop && d == 0) {
 					ref = famRef
 				} else if r.Chance(1, 12) {
 					ref = [2]string{"core", "absent"}
@@ -962,7 +1113,7 @@ func run(f lib.Flags, scratch string) error {
 				yml += fmt.Sprintf("  - name: %s\n    type: %q\n", name, typ)
 				cons := "None"
 				var consJS interface{}
-				if r.Chance(3, 4) || (c.sameType && d < 2) {
+				if (r.Chance(3, 4) || (c.sameType && d < 2)) && !(preTop && d == 0) {
 					around := ver{maj: 1}
 					if vs := vers[ref]; len(vs) > 0 {
 						pick := vs[r.Intn(len(vs))]
